@@ -37,6 +37,7 @@ package contracts
 //@   modifies boxed(data)
 //@ extern func encoding/binary.Write
 //@   modifies w.ghost_pos
+//@   ensures result == nil ==> w.ghost_pos == old(w.ghost_pos) + binsize(data)
 //@ extern func io.ReadFull
 //@   modifies buf[all]
 //@   ensures 0 <= result.0 && result.0 <= len(buf)
@@ -70,3 +71,15 @@ package contracts
 //@   pure
 //@ extern func encoding/binary.(ByteOrder).Uint32
 //@   pure
+
+//@ extern func io.(WriteSeeker).Seek
+//@   modifies nothing
+//@   ensures result.1 == nil ==> result.0 >= 0
+//@   ensures result.1 == nil && offset == 0 && whence == 1 ==> result.0 == this.ghost_pos
+//@ extern func io.(WriterTo).WriteTo
+//@   modifies w.ghost_pos
+//@   ensures result.1 == nil ==> w.ghost_pos == old(w.ghost_pos) + result.0
+//@ extern func bytes.Repeat
+//@   requires count >= 0
+//@   modifies nothing
+//@   ensures len(result) == len(b) * count
